@@ -123,7 +123,7 @@ def getSpeciesMap (sys : SystemDecl α) (procs : List (Process α)) (reorder : B
 def speciesUsed (procs : List (Process α)) : List String :=
   procs.flatMap fun p => p.reactants.map (·.name) ++ p.products.map (·.1.name)
 
-/-- `SetAbsoluteTolerances` as written: non-gas species are looked up by their *bare* name -/
+/-- `SetAbsoluteTolerances`: gas species by name, non-gas species by "<phase>.<name>" -/
 def setAbsoluteTolerances [OfNat α 0] (dflt : α) (sys : SystemDecl α) (m : NameMap) : Except Err (Array α) := do
   let tol : Array α := Array.replicate m.length dflt
   let tol ← sys.gas.foldlM (fun tol sp =>
@@ -135,7 +135,7 @@ def setAbsoluteTolerances [OfNat α 0] (dflt : α) (sys : SystemDecl α) (m : Na
   sys.phases.foldlM (fun tol ph => ph.2.foldlM (fun tol sp =>
     match sp.atol with
     | none => pure tol
-    | some v => match nmLookup m sp.name with
+    | some v => match nmLookup m (ph.1 ++ "." ++ sp.name) with
       | some i => pure (wr tol i v)
       | none => throw Err.outOfRange) tol) tol
 
@@ -155,10 +155,10 @@ def build [OfNat α 0] (dflt : α) (labelsOf : List (Process α) → List String
   let some sys := b.system | throw (Err.sys catBuilder 2)
   let procs := b.reactions.getD []
   if procs.isEmpty then throw (Err.sys catBuilder 3)
-  let m ← getSpeciesMap sys procs b.reorder
-  let labels := labelsOf procs
   let n := sys.stateSize
   if n = 0 then throw (Err.sys catBuilder 4)
+  let m ← getSpeciesMap sys procs b.reorder
+  let labels := labelsOf procs
   if !b.ignoreUnused then
     let used := speciesUsed procs
     if sys.uniqueNames.any (fun s => !used.contains s) then throw (Err.sys catBuilder 1)
